@@ -42,3 +42,28 @@ pub fn c05_replay(run: &Run, case: &Value) -> Result<Vec<Violation>, String> {
     crate::ts::install_panic_hook();
     replay_case(run, &c05(), case)
 }
+
+pub fn c09_run(run: &Run) {
+    run_check(run, &crate::c09_12::c09(), "programs of 2-8 mutually referencing items (structs, generic structs, unit enums, tagged enums with newtype and struct variants, aliases, generic aliases, newtype structs); references direct, through Vec/array/slice/Option/HashMap key+value/generic arguments/wrappers, recursive; every subset of items carries serde(rename); Swift/Kotlin prefix in {\"\", OP, X_, K}; Go with and without uppercase_acronyms. Oracle (internal consistency of the output): for every reference in the model, the name spelled at the use site equals the name under which the target's definition was found; includes variant parents (Kotlin `: P()`, Scala `extends P`), helper structs of struct variants at every site that names them (payload, Swift decode type, Go decode arm / accessor / constructor), and generic parameters (spelled exactly as declared). Non-trivial = a referenced item is renamed, or a prefix with a reference, or a struct variant.", &[OBS_ASSUMPTION, INPROC_ASSUMPTION, "which of original / renamed a back end defines a type under is not prescribed; only agreement between definition and use is demanded"], 3000, 80_000);
+}
+pub fn c09_replay(run: &Run, case: &Value) -> Result<Vec<Violation>, String> {
+    crate::ts::install_panic_hook();
+    replay_case(run, &crate::c09_12::c09(), case)
+}
+pub fn c11_run(run: &Run) {
+    let rule = "item sets of 2-10 with a random reference graph: an acyclic family (items only refer to items earlier in a hidden order; source order shuffled independently; names random so alphabetical order is independent of the graph) and an unrestricted family (self loops, cycles); every edge placed in a struct field, newtype payload, struct-variant field, alias / newtype target, through Vec / array / slice / Option / HashMap key or value / generic argument / nested combinations; a sub-family with serde-renamed targets; languages TS, Kotlin, Swift, Go, Python. Oracle: (1) every item is defined exactly once (all graphs); (2) acyclic graphs: every definition belonging to A (its helper structs and variant classes included) that mentions B's name comes after B's definition; (3) Python, acyclic: the module executes against the stub pydantic without NameError on a user type. Non-trivial = >= 3 edges, a cycle, or an edge through a container.";
+    run_check(run, &crate::c09_12::c11_dag(), rule, &[OBS_ASSUMPTION, INPROC_ASSUMPTION, "Scala is excluded (statement: it does not use the shared ordering)"], 3000, 100_000);
+    search(run, &crate::c09_12::c11_cyclic(), run.tier.pick(1500, 50_000));
+}
+pub fn c11_replay(run: &Run, case: &Value) -> Result<Vec<Violation>, String> {
+    crate::ts::install_panic_hook();
+    replay_case(run, &crate::c09_12::c11_dag(), case)
+}
+pub fn c12_run(run: &Run) {
+    run_check(run, &crate::c09_12::c12(), "programs in which the trigger types - (), unsigned integers, Option, Vec, HashMap, generic parameters, Vec<u8> mapped to bytes - occur at depth 0-4 and in every position (field, struct-variant field, newtype payload, alias / newtype target, generic argument, const type), alone and combined; 6 languages. Oracle (one direction, as stated): every use of a helper name (Swift CodableVoid; Scala UByte/UShort/UInt/ULong; Python names from typing / pydantic / enum / datetime, TypeVars, custom (de)serialiser functions - found by an AST walk of annotations, bases and values, plus NameError at import; Go package qualifiers) is matched by a definition or import in the same output. Non-trivial = a trigger at depth >= 2 or >= 2 triggers.", &[OBS_ASSUMPTION, INPROC_ASSUMPTION, "unused imports are not flagged; generated TypeScript never uses the names of its Reviver/Replacer footer, so no obligation arises there"], 3000, 80_000);
+    crate::c12cli::run_cli_family(run);
+}
+pub fn c12_replay(run: &Run, case: &Value) -> Result<Vec<Violation>, String> {
+    crate::ts::install_panic_hook();
+    replay_case(run, &crate::c09_12::c12(), case)
+}
